@@ -23,6 +23,8 @@ def budget(tier):
 def gen_cases(rng, n, tier):
     # 'dup': two versioned classes with the same __name__ (different modules) - one recorded name, two classes
     cfgs = [c for c in B.all_cfgs('blog') + B.all_cfgs('inh')[::2] + [d for d in B.all_cfgs('dup') if d['changes']]
+            # a class that overrides the names of its transaction columns (Tag: txid / valid_to)
+            + B.all_cfgs('blog', dict(class_names=True))[::3]
             if not c['null_delete']]
     # flat shapes: Transaction.changed_entities is read for every record at the end of the run (a polymorphic query
     # of a hierarchy returns subclass versions under the parent class too: not compared there)
